@@ -27,6 +27,7 @@ func (s *Sim) oracleMore(op Op, evs []SIEvent, preds []PredCall) {
 	s.oracleC16(op, evs)
 	s.oracleC06(op, evs)
 	s.oracleC13(op, evs)
+	s.oracleC07(op, evs)
 }
 
 func (s *Sim) checkDrainedMore() {}
